@@ -129,7 +129,12 @@ func ruleC09(c *Ctx) []*report.Result {
 			// receiver type in place (a shared or extracted helper is not a
 			// different route)
 			paths := flattenPaths(fn, func(g *ssa.Function) bool {
-				return c.P.InModule(g) && recvNamed(g) == impl.tname && !a.layer[g] && !returnsRestorer(g) && g.Name() != "restore"
+				if !c.P.InModule(g) || a.layer[g] || returnsRestorer(g) || g.Name() == "restore" {
+					return false
+				}
+				// helpers of the receiver, and helpers of the restorer that run a
+				// function they are handed (`start().around(func(){ … })`)
+				return recvNamed(g) == impl.tname || recvNamed(g) == restorerName
 			})
 			if paths == nil {
 				r.Fail(construct+" / single path", pos, "method is expected to be loop-free code with a handful of paths", nil, "")
